@@ -71,10 +71,12 @@ def _remove_unused_optional_outputs(
                 out.name = ""
                 modified = True
 
-    # Remove trailing outputs with empty names by counting backwards
+    # Remove trailing outputs with empty names by counting backwards.
+    # An unnamed output that is a graph output or is consumed is still needed.
     new_output_count = len(node.outputs)
     for i in reversed(range(len(node.outputs))):
-        if not node.outputs[i].name:
+        out = node.outputs[i]
+        if not out.name and out not in graph_outputs and not out.uses():
             new_output_count -= 1
         else:
             break
